@@ -96,6 +96,7 @@ type Path struct {
 	StopPhis  map[string]*Expr // for Term "stop": values flowing into the phis of the target block, by phi comment
 	StopFrom  *ssa.BasicBlock
 	StopInstr ssa.Instruction // for Term "stopat": the instruction not executed; Results hold its operands' values
+	Watched   map[ssa.Value]*Expr
 }
 
 func (p *Path) lit(atom string) (pol, ok bool) {
@@ -129,6 +130,7 @@ type SPE struct {
 	// instruction (never the StartAt instruction at the very beginning)
 	StartAt   ssa.Instruction
 	StopAt    func(in ssa.Instruction) bool
+	Watch     []ssa.Value // values reported in Path.Watched at a StopAt
 	MaxVisits int
 	InitCell  func(addr *Expr) *Expr
 	Decide    func(atom *Expr, p *pathState) (val, known bool)
@@ -377,7 +379,24 @@ func (x *SPE) instrsFrom(st *pathState, b *ssa.BasicBlock, from int) {
 				}
 				x.finish(st, "stopat", res, b)
 				if len(x.Paths) > 0 {
-					x.Paths[len(x.Paths)-1].StopInstr = in
+					lp := x.Paths[len(x.Paths)-1]
+					lp.StopInstr = in
+					// the watched values, where already computed on this path
+					for _, wv := range x.Watch {
+						if e, ok := st.env[wv]; ok {
+							if lp.Watched == nil {
+								lp.Watched = map[ssa.Value]*Expr{}
+							}
+							lp.Watched[wv] = e
+						}
+					}
+					// the values of the named variables (phis) at this point
+					lp.StopPhis = map[string]*Expr{}
+					for v, e := range st.env {
+						if phi, ok := v.(*ssa.Phi); ok && phi.Comment != "" {
+							lp.StopPhis[phi.Comment] = e
+						}
+					}
 				}
 				return
 			}
